@@ -98,6 +98,8 @@ type Stats struct {
 	DetChecked   int
 	CapHit       bool
 	BoundReached int
+	// FaultsSeen: the largest number of injected faults actually consumed in one execution
+	FaultsSeen int
 }
 
 type FoundViolation struct {
@@ -323,6 +325,13 @@ func (e *Explorer) Replay(choices []int) (*Exec, error) {
 
 func (e *Explorer) handle(x *Exec) {
 	e.St.Executions++
+	nf := 0
+	for _, p := range x.W.Procs {
+		nf += p.Faults
+	}
+	if nf > e.St.FaultsSeen {
+		e.St.FaultsSeen = nf
+	}
 	if len(x.points) > e.St.MaxDepth {
 		e.St.MaxDepth = len(x.points)
 	}
